@@ -46,6 +46,7 @@ class CodeInstrumenter(m.MatcherDecoratableTransformer):
         self.iids = iids
         self.name_stack = []
         self.current_loop = []
+        self.loops_in_else = []
         self.current_try = []
         self.current_class = []
         self.current_function = []
@@ -1872,6 +1873,16 @@ class CodeInstrumenter(m.MatcherDecoratableTransformer):
     def visit_For(self, node):
         iid = self.__create_iid(node)
         self.current_loop.append((iid, 1))  # 0 for while loop, 1 for for loop
+
+    # a break/continue inside the else clause of a loop belongs to the enclosing loop
+    def visit_For_orelse(self, node):
+        self.loops_in_else.append(self.current_loop.pop())
+
+    def leave_For_orelse(self, node):
+        self.current_loop.append(self.loops_in_else.pop())
+
+    visit_While_orelse = visit_For_orelse
+    leave_While_orelse = leave_For_orelse
 
     def leave_For(self, original_node, updated_node):
         iid = self.current_loop.pop()[0]
